@@ -569,6 +569,7 @@ func shortCallee(name string) string {
 func (f *Frame) resultScope(st *execState, vals []Val) *Scope {
 	e := f.e
 	sc := f.scopeAt(st, nil)
+	sc.paramsFirst = true
 	rs := f.fn.Signature.Results()
 	for i := 0; i < rs.Len(); i++ {
 		sv := e.svOf(vals[i], rs.At(i).Type())
